@@ -10,31 +10,62 @@ from ..core import cstr, clist, cpair, cforest, cnat, copt, cbool
 ID = "C10"
 THEOREM_FILE = "Properties/C10.v"
 IMPORTS = ("From Annet Require Import Base.Str Base.Tree Model.Pattern Model.Acl Model.Offside Model.GenProg "
-           "Model.GenAcl Spec.P_C10.")
+           "Model.GenAcl Spec.P_C10 Gen.Src_vendors Model.Join Model.GenProgV Spec.P_C05 Spec.P_C10b Spec.P_C10v.")
 # vendors whose formatter.split agrees with CommonFormatter.split on the generated rows (no interior double
 # blanks, no policy-end keywords): optixtrans is CommonFormatter itself; huawei / arista add split_remove_spaces
-HWS = {"optixtrans": "Huawei OptiXtrans DC908", "huawei": "Huawei CE6870", "arista": "Arista DCS-7280"}
+HWS = {"optixtrans": "Huawei OptiXtrans DC908", "huawei": "Huawei CE6870", "arista": "Arista DCS-7280",
+       "h3c": "H3C S6800", "cisco": "Cisco Catalyst C3750", "nexus": "Cisco Nexus 9000", "iosxr": "Cisco ASR 9000",
+       "aruba": "Aruba AP-505", "b4com": "B4com CS4100", "pc": "PC"}
+# every vendor of the plain-indentation formatter family (Model/Join.v): the emit/parse stage runs the model with
+# the vendor's own split kind (CommonFormatter / split_remove_spaces / policy-end filters / CiscoFormatter)
+PLAIN_VENDORS = ["optixtrans", "huawei", "h3c", "arista", "cisco", "nexus", "iosxr", "aruba", "b4com", "pc"]
 VENDOR = "optixtrans"
 META = {
-    "text": "Proof (Coq, unbounded): a generator program (yields, block/block_if/multiblock/multiblock_if contexts, tuple "
-            "and multi-line yields) whose rows are plain lines emits, through the model of TreeGenerator's indentation "
-            "bookkeeping and PartialGenerator.__call__, a text that parse_to_tree turns into exactly the tree of its "
-            "yielded paths (each line once under the block path it was yielded in, nothing else); config_tree "
-            "(merge_dicts) is the first-seen-order union; apply_acl in fatal mode raises iff a yielded path is refused "
-            "by the generator's own ACL and names the first such path; in exclusive mode it raises iff a reached line "
-            "is deletable by >= 2 distinct generators and names them; otherwise new is the set of passed paths of the "
-            "union. Correspondence: Coq (vm_compute) compares the model with real PartialGenerator subclasses run "
-            "through _run_partial_generator (with and without ACL), run_partial_generators().config_tree() and "
-            "annet.gen._old_new_per_device, and evaluates the property predicates on the real outputs.",
-    "technique": "Coq induction over generator programs and trees (reusing the C05 offside theorem); vm_compute "
-                 "differential check against real PartialGenerator runs",
+    "text": "Proof (Coq, unbounded): (layer 1, every program, no guard) the outcome of _run_partial_generator(use_acl=False) "
+            "in the model of TreeGenerator's indentation bookkeeping, PartialGenerator.__call__ and parse_to_tree is: the "
+            "invalid-value error iff the run reaches a None / list value, else the None assertion iff a row holds the word "
+            "None, else the C05 offside reference over the program's (column, raw row) list, where a row is a '#' section "
+            "reset, vanishes (blank, '!'/'#' comment) or is a line in column block column + own indentation "
+            "(C10_run_items, C10_invalid_iff, C10_noneword_iff). (layer 2) under the computable guard wfx_prog the run "
+            "succeeds with exactly tree_of': the ordered dict of the yielded paths where blank and comment rows vanish, a "
+            "self-indented row is placed among the recent rows of its own block, a block body hangs under the last visible "
+            "header line or - when the header vanishes - under the row yielded just before it, multi-line headers, any "
+            "indent including 0, block_if / multiblock_if conditions with falsy-but-printable tokens "
+            "(C10_emit_parse_gen; it extends C10_emit_parse: C10_gen_extends). With the device vendor's own "
+            "formatter.split in the parse step both layers hold for every program the split leaves alone "
+            "(C10_vendor_split_neutral, C10_emit_parse_gen_vendor: all split kinds of the plain-indentation family). "
+            "config_tree (merge_dicts) is the first-seen-order union; apply_acl in fatal mode raises iff a yielded path is "
+            "refused by the generator's own ACL and names the first such path; in exclusive mode it raises iff a reached "
+            "line is deletable by >= 2 distinct generators and names them; otherwise new is the set of passed paths of the "
+            "union. Correspondence: Coq (vm_compute) compares the model with real PartialGenerator subclasses run through "
+            "_run_partial_generator (with and without ACL), run_partial_generators().config_tree() and "
+            "annet.gen._old_new_per_device, and evaluates the property predicates on the real outputs; the emit/parse "
+            "stage runs on devices of all ten plain-family vendors (optixtrans, pc: CommonFormatter.split; arista, aruba, "
+            "b4com, nexus: split_remove_spaces; huawei, h3c: strip().startswith policy-end filter; iosxr: endswith "
+            "filter; cisco: CiscoFormatter re-indentation) against the model with that vendor's split kind, read off the "
+            "vendor table regenerated from the source.",
+    "technique": "Coq induction over generator programs and trees (reusing the C05 offside theorem; a cursor invariant on "
+                 "the offside history for vanishing headers and self-indented rows); vm_compute differential check "
+                 "against real PartialGenerator runs on ten vendors",
     "note": "partial: (1) the confinement clause is refuted for lines discarded by apply_acl's reverse/cant_delete rule "
             "(C10_confined_refuted, KNOWN-FINDING, fix proposed) and proved outside that class; (2) 'new == union' is "
             "proved under the guard that the merged ACL passes every line of the union (ACL-merge monotonicity is "
-            "property C06); (3) the tree theorem needs plain rows (wf_prog) - indented/blank/comment rows, None "
-            "values and multi-line block headers are covered by the correspondence only; (4) ACL theorems are for "
-            "every row matcher, the correspondence uses vendor optixtrans (CommonFormatter.split, reverse 'undo').",
+            "property C06); (3) the path form of the tree theorem (tree_of') needs wfx_prog; outside it the exact outcome "
+            "is still proved (layer 1) and each excluded class has a witness replayed on the real code: a vanishing header "
+            "with no known row before it (first in its block or behind a nested block that showed lines) followed by a "
+            "sibling -> ParserError (C10_vanishing_header_refuted); a self-indented row with no known row before it "
+            "(C10_leading_blank_refuted) or into a column no open row started (C10_inner_dedent_refuted); a header line "
+            "deeper than the block indent (C10_header_deep_line_refuted); a '#' row in column 0 inside a header "
+            "(C10_header_reset_refuted); None values are errors (C10_invalid_iff), never skipped; inside the guard a body "
+            "under a vanishing header is filed under the row before the block, not under 'the block path it was yielded "
+            "in' (C10_example_reattached); (4) the vendor theorems need split_neutral: rows a vendor split rewrites "
+            "(interior runs of blanks) or drops (huawei/h3c endif/end-list/end-filter, iosxr end-set/endif/end-policy) or "
+            "re-indents (cisco address-family ... exit-address-family) are compared with the model by the correspondence "
+            "only; ACL theorems are for every row matcher, the ACL stages of the correspondence use optixtrans, huawei "
+            "and arista with rows their splits leave alone; brace (juniper, ribbon, nokia) and RouterOS formatters are "
+            "not in the C10 model.",
 }
+
 
 def spread(n, cap):
     """cases per file: one file per core when there are few cases, at most `cap` per file"""
@@ -207,6 +238,85 @@ def gen_prog(rng, wild):
     return gen_body(rng, 0, wild, [rng.choice([4, 8, 12, 20])])
 
 
+# rows the vendors' splits care about: interior runs of blanks (split_remove_spaces), policy-end markers (huawei /
+# h3c: strip().startswith; iosxr: endswith), address-family / exit rows (CiscoFormatter), '!' comments
+VROWS = ["endif", "end-list", "end-filter", "end-policy", "end-set", "  endif", "xpl end-policy", "if a then endif",
+         "endif x", "address-family ipv4", "address-family ipv4 unicast", "exit-address-family", "exit", " exit",
+         "description a  b", "description  a   b c", "a   b", "mtu  1", "mtu 1  ", "!", "! x", "no shutdown",
+         "router bgp 1", "neighbor 1.1.1.1 remote-as  2"]
+VANISH = ["", "# h", "!", "  ", "!x", "#", "\t"]
+FALSY_CONDS = [0, "", [], 0.0]
+TRUTHY_CONDS = [1, "x", [0]]
+
+
+def nested_text(rng, rows):
+    """a multi-line text that carries its own indentation"""
+    k = rng.randint(2, 5)
+    ind, out = 0, []
+    for j in range(k):
+        out.append(" " * ind + rng.choice(rows))
+        step = rng.random()
+        if step < 0.4:
+            ind += rng.choice([1, 2, 2, 4])
+        elif step < 0.7 and ind:
+            ind = rng.choice([0, max(0, ind - 2), ind - 1])
+    txt = "\n".join(out)
+    if rng.random() < 0.3:
+        pre = " " * rng.choice([2, 6])
+        txt = "\n" + "\n".join(pre + l for l in txt.split("\n")) + "\n"
+    return txt
+
+
+def mutate_x(rng, prog, depth=0):
+    """rows / headers / conditions of the widened theorem domain, sprinkled over a generated program"""
+    out = []
+    for st in prog:
+        st = dict(st)
+        if "y" in st:
+            r = rng.random()
+            if r < 0.14:
+                st = {"y": {"s": rng.choice(VROWS)}}
+            elif r < 0.2:
+                st = {"y": {"s": nested_text(rng, SUB + VROWS[:12])}}
+            elif r < 0.23:
+                st = {"y": {"t": [s_tok("flag"), {"bool": rng.random() < 0.5}]}}
+            elif r < 0.25:
+                st = {"y": {"bool": rng.random() < 0.5}}
+            out.append(st)
+            if rng.random() < 0.1:                       # a block whose header vanishes, right behind a row
+                body = [{"y": {"s": rng.choice(SUB)}} for _ in range(rng.choice([0, 1, 1, 2]))]
+                if body and rng.random() < 0.3:
+                    body = [{"b": [s_tok(rng.choice(VANISH))], "indent": None, "body": body}]
+                out.append({"b": [s_tok(rng.choice(VANISH))], "indent": rng.choice([None, None, 1, 4]), "body": body})
+            continue
+        st["body"] = mutate_x(rng, st["body"], depth + 1)
+        if "b" in st:
+            r = rng.random()
+            if r < 0.08:
+                st["b"] = [s_tok(rng.choice(VANISH))]
+            elif r < 0.2:
+                a, b2 = rng.choice(TOP if depth == 0 else SUB), rng.choice(SUB)
+                st["b"] = [s_tok(rng.choice([a + "\n" + b2, a + "\n  " + b2, a + "\n   " + b2, a + "\n#", "# x\n" + b2,
+                                             a + "\n! c", a + "\n\n" + b2, "\n    " + a + "\n      " + b2 + "\n"]))]
+            elif r < 0.26:
+                st["b"] = [s_tok(rng.choice(["address-family ipv4", "address-family ipv4 unicast", "router bgp 1"]))]
+            if rng.random() < 0.1:
+                st["indent"] = 0
+        elif "bi" in st:
+            r = rng.random()
+            if r < 0.2:
+                st["bi"] = list(st["bi"]) + [rng.choice([{"bool": False}, {"i": 0}, {"bool": True}])]
+            if rng.random() < 0.2:
+                st["cond"] = rng.choice(FALSY_CONDS + TRUTHY_CONDS)
+        elif "mbi" in st:
+            if rng.random() < 0.25:
+                st["cond"] = rng.choice(FALSY_CONDS + TRUTHY_CONDS)
+            if rng.random() < 0.15:
+                st["mbi"] = list(st["mbi"]) + [{"bool": False}]
+        out.append(st)
+    return out
+
+
 # --------------------------------------------------------------------------------------
 # Coq printers
 
@@ -216,7 +326,15 @@ def c_tok(t):
         return f"(TS {cstr(t['s'])})"
     if "i" in t:
         return f"(TS {cstr(str(t['i']))})"
+    if "bool" in t:
+        return f"(TS {cstr(str(bool(t['bool'])))})"        # str(False) = "False": printable, falsy
     return "TNone"
+
+
+def c_cond(st):
+    """an explicit condition= argument (any Python value: only its truthiness matters); None = left at the default"""
+    c = st.get("cond")
+    return copt(None if c is None else cbool(bool(c)))
 
 
 def c_yval(v):
@@ -224,6 +342,8 @@ def c_yval(v):
         return f"(YS {cstr(v['s'])})"
     if "i" in v:
         return f"(YS {cstr(str(v['i']))})"
+    if "bool" in v:
+        return f"(YS {cstr(str(bool(v['bool'])))})"
     if "t" in v:
         return f"(YT {clist(c_yval(x) for x in v['t'])})"
     if "l" in v:
@@ -244,13 +364,11 @@ def c_stmt(st):
         ind = copt(None if st.get("indent") is None else cnat(st["indent"]))
         return f"(Block {clist(c_tok(t) for t in st['b'])} {ind} {c_prog(st['body'])})"
     if "bi" in st:
-        cond = copt(None if st.get("cond") is None else cbool(st["cond"]))
-        return f"(BlockIf {clist(c_tok(t) for t in st['bi'])} {cond} {c_prog(st['body'])})"
+        return f"(BlockIf {clist(c_tok(t) for t in st['bi'])} {c_cond(st)} {c_prog(st['body'])})"
     if "mb" in st:
         return f"(MultiBlock {clist(c_mblk(b) for b in st['mb'])} {c_prog(st['body'])})"
     if "mbi" in st:
-        cond = copt(None if st.get("cond") is None else cbool(st["cond"]))
-        return f"(MultiBlockIf {clist(c_mblk(b) for b in st['mbi'])} {cond} {c_prog(st['body'])})"
+        return f"(MultiBlockIf {clist(c_mblk(b) for b in st['mbi'])} {c_cond(st)} {c_prog(st['body'])})"
     raise core.CheckFailure(f"bad stmt {st}")
 
 
@@ -551,11 +669,58 @@ def gen_cases(ctx):
     return [gen_case(rng, ctx.thorough) for _ in range(n)]
 
 
+def _y(s_):
+    return {"y": {"s": s_}}
+
+
+def _b(s_, body, ind=None):
+    return {"b": [s_tok(s_)], "indent": ind, "body": body}
+
+
+# fixed corpus of the emit/parse stage: the witnesses of Properties/C10.v (each replayed on the real code on every run)
+CORPUS = [
+    ("optixtrans", [_y("a"), _b("", [_y("b")]), _y("c")]),                                        # C10_example_reattached
+    ("optixtrans", [_b("a", [_b("", [_y("b")]), _y("c")])]),                                      # C10_vanishing_header_refuted
+    ("optixtrans", [_y(" a"), _y("b")]),                                                          # C10_leading_blank_refuted
+    ("optixtrans", [_y("a\n    b\n  c")]),                                                        # C10_inner_dedent_refuted
+    ("optixtrans", [_b("a\n   b", [_y("x")])]),                                                   # C10_header_deep_line_refuted
+    ("optixtrans", [_b("a\n#", [_y("x")])]),                                                      # C10_header_reset_refuted
+    ("cisco", [_b("router bgp 1", [_b("address-family ipv4", [_y("network 1")]), _y("x")])]),     # C10_cisco_address_family_refuted
+    ("nexus", [_b("router bgp 1", [_b("address-family ipv4", [_y("network 1")]), _y("x")])]),
+    ("huawei", [_b("xpl p", [_y("if a then"), _y("pass"), _y("endif")])]),                        # C10_huawei_policy_end_refuted
+    ("iosxr", [_b("route-policy P", [_y("pass"), _y("end-policy")])]),
+    ("arista", [_y("description a  b")]),                                                         # C10_spaces_rewritten_refuted
+    ("pc", [{"bi": [s_tok("flag"), {"bool": False}], "cond": None, "body": [_y("x")]}]),
+    ("pc", [{"bi": [s_tok("flag")], "cond": 0, "body": [_y("x")]}]),
+    ("pc", [{"mbi": [s_tok("flag")], "cond": 1, "body": [_y("x")]}]),
+] + [(v, [                                                                                         # ex_prog_x
+    _b("interface X1", [_y("mtu 1"), _b("# vanishing header", [_y("b"), _b("!", [_y("z")])]), _y(""), _y("   "),
+                        _y("! note"), _y("shutdown")]),
+    _y("#"),
+    _b("acl 1\nacl 2", [_y("rule 1\n  match a\n    deep\n  match b\nrule 2")], 3),
+    _b("system", [_y("sysname r1")], 0),
+    {"bi": [s_tok("area"), s_tok("0")], "cond": None, "body": [_y("network 1")]}]) for v in ("optixtrans", "huawei", "cisco")]
+
+
 def gen_free_progs(ctx):
-    """programs only (no ACL): the emit/parse stage gets a much larger sample"""
+    """programs only (no ACL): the emit/parse stage gets a much larger sample; each runs on a device of one of the
+    plain-family vendors, so that the vendor's own formatter.split is inside the comparison.
+    families: free (plain rows), free-wild (near misses), x (the widened domain: vanishing headers behind rows,
+    multi-line headers, texts with their own indentation, indent=0, falsy tokens / conditions, rows the vendor
+    splits rewrite or drop)"""
     rng = ctx.rng("free")
     n = 12000 if ctx.thorough else 1500
-    return [gen_prog(rng, rng.random() < 0.4) for _ in range(n)]
+    out = [(v, p, "noacl-corpus") for (v, p) in CORPUS]
+    for i in range(n):
+        vendor = rng.choice(PLAIN_VENDORS)
+        m = rng.random()
+        if m < 0.3:
+            out.append((vendor, gen_prog(rng, False), "noacl-free"))
+        elif m < 0.5:
+            out.append((vendor, gen_prog(rng, True), "noacl-wild"))
+        else:
+            out.append((vendor, mutate_x(rng, gen_prog(rng, rng.random() < 0.25)), "noacl-x"))
+    return out
 
 
 def c_gen(g):
@@ -588,7 +753,8 @@ def correspond(ctx, cases, free_progs=()):
     cases = list(cases)
     n_acl_cases = len(cases)
     # programs without ACL ride along as single-generator cases with an empty ACL
-    allc = cases + [{"gens": [{"name": "G0", "items": [], "acl": "", "prog": p}], "family": "noacl"} for p in free_progs]
+    allc = cases + [{"gens": [{"name": "G0", "items": [], "acl": "", "prog": p}], "family": fam, "vendor": v}
+                    for (v, p, fam) in free_progs]
     outs = core.run_impl_sharded("c10_runner.py", [runner_case(c) for c in allc])
     st = {}
 
@@ -600,38 +766,94 @@ def correspond(ctx, cases, free_progs=()):
             signature="C10/unexpected-exception", what=f"unexpected exception at {where}: {o}",
             replay={"case": runner_case(c), "impl": o}))
 
-    # ---- stage 1: every generator on its own, without ACL: rows -> text -> tree
+    # ---- stage 1: every generator on its own, without ACL: rows -> text -> (the vendor's split) -> tree
+    t0 = time.time()
     progs, terms = [], []
     for ci, (c, o) in enumerate(zip(allc, outs)):
         for gi, (g, go) in enumerate(zip(c["gens"], o["gens"])):
             if is_other(go["noacl"]):
-                unexpected({"gens": [g]}, go["noacl"], "_run_partial_generator(use_acl=False)")
+                unexpected({"gens": [g], "vendor": c.get("vendor", VENDOR)}, go["noacl"], "_run_partial_generator(use_acl=False)")
                 continue
             progs.append((ci, gi))
-            terms.append(cpair(c_prog(g["prog"]), c_gres(go["noacl"])))
-    res = run_case_files(ID, "prog * gres", IMPORTS, {
-        "agree": "fun c => gres_eqb (run_noacl (fst c)) (snd c)",
-        "holds": "fun c => P_C10_tree (fst c) (snd c)",
-        "wf": "fun c => negb (wf_prog (fst c))",
-    }, terms, per_file=300, tag="tree")
+            terms.append(cpair(cpair(cstr(c.get("vendor", VENDOR)), c_prog(g["prog"])), c_gres(go["noacl"])))
+    TY1 = "(string * prog) * gres"
+    NEUTRAL = ("match vendor_splitk (fst (fst c)) with Some sk => split_neutral sk (snd (fst c)) | None => false end")
+    res = run_case_files(ID, TY1, IMPORTS, {
+        "agree": "fun c => opt_gres_eqb (run_noacl_vendor (fst (fst c)) (snd (fst c))) (snd c)",
+        "holds": "fun c => P_C10_vendor (fst (fst c)) (snd (fst c)) (snd c)",
+        "wf": "fun c => negb (wf_prog (snd (fst c)))",
+        "wfx": "fun c => negb (wfx_prog (snd (fst c)))",
+        "neutral": f"fun c => negb ({NEUTRAL})",
+        "wfx_neutral": f"fun c => negb (wfx_prog (snd (fst c)) && {NEUTRAL})",
+        # the plain tree clause WITHOUT the split_neutral guard: what the vendor's split does to plain programs
+        "plain_any": "fun c => P_C10_tree (snd (fst c)) (snd c)",
+    }, terms, per_file=spread(len(terms), 300), tag="tree")
+    fail1 = sorted(res["holds"])
+    cls1 = run_case_files(ID, TY1, IMPORTS, {
+        "plain": "fun c => P_C10_tree (snd (fst c)) (snd c)",
+        "items": "fun c => P_C10_items (snd (fst c)) (snd c)",
+    }, [terms[i] for i in fail1], per_file=40, tag="tree_cls") if fail1 else {"plain": [], "items": []}
+    bad_plain = {fail1[j] for j in cls1["plain"]}
+    bad_items = {fail1[j] for j in cls1["items"]}
     for i in res["holds"]:
         ci, gi = progs[i]
+        if i in bad_plain:
+            sig, what = ("C10/tree-differs-from-yielded-paths",
+                         "a program of plain rows does not parse to the tree of its yielded paths")
+        elif i in bad_items:
+            sig, what = ("C10/outcome-differs-from-offside-reference-of-emitted-rows",
+                         "the outcome of _run_partial_generator(use_acl=False) is not the offside reference over the "
+                         "program's (column, row) list / the generator error the program's values call for")
+        else:
+            sig, what = ("C10/tree-differs-from-general-yielded-paths",
+                         "a program inside the widened guard (vanishing rows and headers, self-indented rows, indent=0) "
+                         "does not parse to tree_of'")
         ctx.add_violation(core.Violation(
-            signature="C10/tree-differs-from-yielded-paths",
-            what="a program of plain rows does not parse to the tree of its yielded paths",
-            replay={"case": runner_case({"gens": [allc[ci]["gens"][gi]]}), "impl": outs[ci]["gens"][gi]["noacl"]}))
+            signature=sig, what=what,
+            replay={"case": runner_case({"gens": [allc[ci]["gens"][gi]], "vendor": allc[ci].get("vendor", VENDOR)}),
+                    "impl": outs[ci]["gens"][gi]["noacl"]}))
     if not res["holds"]:
         for i in res["agree"][:1]:
             ci, gi = progs[i]
             ctx.add_violation(core.Violation(
                 signature="C10/model-impl-disagree-emit",
-                what="Coq model run_noacl and _run_partial_generator(use_acl=False) differ (correspondence broken)",
-                replay={"correspondence": "Model.GenProg.run_noacl vs annet.generators._run_partial_generator",
-                        "case": runner_case({"gens": [allc[ci]["gens"][gi]]}), "impl": outs[ci]["gens"][gi]["noacl"]},
+                what="Coq model run_noacl_vendor and _run_partial_generator(use_acl=False) differ (correspondence broken)",
+                replay={"correspondence": "Model.GenProgV.run_noacl_vendor vs annet.generators._run_partial_generator",
+                        "case": runner_case({"gens": [allc[ci]["gens"][gi]], "vendor": allc[ci].get("vendor", VENDOR)}),
+                        "impl": outs[ci]["gens"][gi]["noacl"]},
                 no_input=True))
+    # plain programs (wf_prog) whose tree differs only because the vendor's split touched a row: by design for the
+    # whitespace / policy-end filters; for Cisco address-family blocks it is a generator error (known finding)
+    touched = sorted(set(res["plain_any"]) - set(res["holds"]))
+    tcls = run_case_files(ID, TY1, IMPORTS, {
+        "af": "fun c => negb (existsb (fun cr : crow => startswith \"address-family\" (strip (snd cr))) "
+              "(prog_rows (snd (fst c))))",
+    }, [terms[i] for i in touched], per_file=40, tag="tree_touched") if touched else {"af": []}
+    has_af = {touched[j] for j in tcls["af"]}
+    st["n_touched"] = len(touched)
+    st["n_cisco_af"] = 0
+    for i in touched:
+        ci, gi = progs[i]
+        o = outs[ci]["gens"][gi]["noacl"]
+        if allc[ci].get("vendor", VENDOR) == "cisco" and i in has_af and "err" in o and o["err"][0] == "parse":
+            st["n_cisco_af"] += 1
+            ctx.add_violation(core.Violation(
+                signature="C10/cisco/address-family-block-followed-by-row-raises-parser-error",
+                what="a Cisco generator program of plain rows with an address-family block followed by another row raises "
+                     "GeneratorError(ParserError) instead of producing the tree of its yielded paths",
+                replay={"case": runner_case({"gens": [allc[ci]["gens"][gi]], "vendor": "cisco"}), "impl": o}))
     st["tree"] = res
     st["n_prog"] = len(terms)
-    st["n_wf"] = len(res["wf"])          # indices where negb wf_prog is false
+    st["n_wf"] = len(res["wf"])           # run_case_files returns the indices where a predicate is FALSE: negb wf_prog false
+    st["n_wfx"] = len(res["wfx"])
+    st["n_neutral"] = len(res["neutral"])
+    st["n_wfx_neutral"] = len(res["wfx_neutral"])
+    st["t_tree"] = round(time.time() - t0, 1)
+    vt = {}
+    for (ci, gi) in progs:
+        v = allc[ci].get("vendor", VENDOR)
+        vt[v] = vt.get(v, 0) + 1
+    st["tree_vendor_histogram"] = vt
 
     # ---- stage 2: config_tree() = union of the per-generator configs (the implementation's own)
     uterms, uidx = [], []
@@ -767,11 +989,11 @@ def run(ctx):
     for c, o in zip(allc, outs):
         fams[c["family"]] = fams.get(c["family"], 0) + 1
         vend[c.get("vendor", VENDOR)] = vend.get(c.get("vendor", VENDOR), 0) + 1
-        if c["family"] != "noacl":
+        if not c["family"].startswith("noacl"):
             k = "ok" if "ok" in o["old_new"] else o["old_new"]["err"][0]
             ohist[k] = ohist.get(k, 0) + 1
         for g, go in zip(c["gens"], o["gens"]):
-            r = go["acl"] if c["family"] != "noacl" else go["noacl"]
+            r = go["acl"] if not c["family"].startswith("noacl") else go["noacl"]
             k = "ok" if "ok" in r else r["err"][0]
             hist[k] = hist.get(k, 0) + 1
             kinds_of(g["prog"], kinds)
@@ -800,12 +1022,21 @@ def run(ctx):
         "statement_kinds": kinds,
         "depth_histogram": depths,
         "programs_in_theorem_domain(wf_prog)": st["n_wf"],
+        "programs_in_general_theorem_domain(wfx_prog)": st["n_wfx"],
+        "programs_the_vendor_split_leaves_alone(split_neutral)": st["n_neutral"],
+        "programs_in_wfx_prog_and_split_neutral": st["n_wfx_neutral"],
+        "plain_programs_whose_tree_the_vendor_split_changes(by design, except cisco address-family)": st["n_touched"],
+        "cisco_address_family_generator_errors(known finding)": st["n_cisco_af"],
+        "emit_parse_stage_vendor_histogram": st["tree_vendor_histogram"],
+        "emit_parse_stage_seconds": st["t_tree"],
         "exhaustive": False,
     })
     ctx.assumptions += [
-        "device vendors optixtrans (CommonFormatter.split, reverse 'undo'), huawei ('undo') and arista ('no'): the two "
-        "latter add split_remove_spaces / policy-end filtering, which is the identity on the generated rows (no "
-        "interior double blanks, no policy-end keywords); str.strip/split modelled for printable ASCII + \\n \\t",
+        "emit/parse stage: devices of the ten plain-family vendors, the model runs the vendor's own split kind "
+        "(Model/GenProgV.v over Model/Join.v, vendor table regenerated from the source); ACL stages: optixtrans "
+        "(CommonFormatter.split, reverse 'undo'), huawei ('undo') and arista ('no') with rows on which their splits are "
+        "the identity (no interior double blanks, no policy-end keywords); str.strip/split modelled for printable "
+        "ASCII + \\n \\t; re.sub of split_remove_spaces modelled as collapse_spaces",
         "textwrap.dedent modelled after CPython 3.12",
         "ACL matching is the shared model Model/Acl.v + Model/Pattern.v (plain rule language); ACL texts are "
         "printed from structured ACLs (harness/aclgen.py)",
